@@ -2,25 +2,32 @@ from checks import rapid, plain, fuzz, REPLAY
 
 CHECK = dict(
     pkg="c09", level="exploration",
-    rule="round trip: image graph (imggen) x source (registry model / OCI layout) x gzip x export-ref override x target (registry model, validating or not / OCI layout) "
-         "x target pre-state x 0-3 metamorphic archive variants (entry order, ./ prefix, dropped directory members, members replaced by symlinks / hard links / "
-         "symlink chains to a moved copy, unrelated extra members, outer gzip, multi-image archive with selection by name / tag / digest). Docker: harness-built "
-         "legacy / content-addressed / OCI-flavoured `docker save` archives with real tar layers stored plain / gzip / zstd, 1-3 images, duplicate layers, selection by name. "
-         "Non-trivial = graph has an index, a shared/duplicate blob or a blob-typed index entry, or the case imports at least one archive variant (Docker: image has a layer); "
-         "distinct by (graph shape, endpoints, options, pre-state, variant feature sets) resp. (style, image/layer shape, selection, variant).",
+    rule="round trip: image graph (imggen, as C03) x source (registry model / OCI layout) x gzip x export-ref override x source ref (tag / tag+digest) x target "
+         "(registry model, rejecting manifests with absent references or not / OCI layout) x target pre-state (empty / partial / stale tag) x 0-3 metamorphic archive "
+         "variants (entry order, ./ prefix, dropped directory members, members replaced by symlinks / hard links / symlink chains to a moved copy in three placements, "
+         "unrelated extra members, outer gzip, two-image archive with selection by name / tag / digest). Docker: harness-built legacy / content-addressed / OCI-flavoured "
+         "`docker save` archives with real tar layers stored plain / gzip / zstd, 1-3 images, duplicate layers (symlink / copy / same path), selection by name, plus the "
+         "same order / prefix / link / gzip variations. Non-trivial = graph has an index, a shared/duplicate blob or a blob-typed index entry, or the case imports at "
+         "least one archive variant (Docker: the picked image has a layer); distinct by (graph shape, endpoints, options, pre-state, variant feature sets) resp. "
+         "(style, image/layer shape, selection, duplicate style, target, variant feature set).",
     jobs=[REPLAY,
           rapid("prop", "TestVerifProp", 12000, 450000, sq=12, st=12, timeout={"quick": 900, "thorough": 5400}),
           rapid("docker", "TestVerifDocker", 4000, 150000, sq=4, st=4, timeout={"quick": 900, "thorough": 5400})],
-    technique="property-based testing (rapid): generated image graphs exported through the real client, the tar stream audited with archive/tar + crypto, "
-              "metamorphic archive variants and harness-built Docker-format archives imported into an in-process model registry / raw OCI layouts; "
-              "independent closure auditor as oracle",
-    level_text="Generated-input search. (1) the archive written by ImageExport is audited with archive/tar, encoding/json and crypto/* only; (2) after ImageImport "
-               "raw target storage must resolve the target reference to the source digest and hold the source closure byte-identically (again after Close for "
-               "layouts); (3) every metamorphic variant of the archive must import to the same result; (4) Docker-format archives must import to an image with "
-               "the archive's config bytes and, per layer, the archive's uncompressed stream (decoded per the declared media type).",
-    level_note="Trusted: regmodel, the audit walker, imggen's serialiser, archive/tar, compress/gzip, klauspost zstd. Export / import errors are tolerated (not judged) "
-               "only for graphs whose closure contains schema1 manifests, manifests of the experimental OCI artifact-manifest type, or foreign layers; everything "
-               "else must succeed. A nil return is always judged.",
+    technique="property-based testing (rapid): generated image graphs exported through the real client, the tar stream audited with archive/tar + encoding/json + crypto, "
+              "metamorphic archive variants and harness-built Docker-format archives imported into an in-process model registry / raw OCI layouts; independent closure "
+              "auditor as oracle; failing variants are attributed to one transformation by re-running with single transformations kept / removed",
+    level_text="Generated-input search. (1) the archive written by ImageExport is audited with archive/tar, encoding/json and crypto/* only: oci-layout, index.json naming "
+               "the exported digest with its tag, media type and size, every blobs/<alg>/<hex> member has that digest, closure from the index complete and equal to the "
+               "closure of raw source storage, manifest.json of a single image names the config and the layers in order; (2) after ImageImport raw target storage must "
+               "resolve the target reference to the source digest and hold the source closure byte-identically, manifests stored as manifests with the source media type "
+               "(again after Close for layouts); (3) every metamorphic variant of the archive must import to the same result; (4) Docker-format archives must import to an "
+               "image with the archive's config bytes and, per layer, the archive's uncompressed stream (decoded per the layer's declared media type).",
+    level_note="Trusted: regmodel, the audit walker, imggen's serialiser, archive/tar, compress/gzip, klauspost zstd. Export / import errors are tolerated (not judged) only "
+               "for graphs whose closure contains schema1 manifests, manifests of the experimental OCI artifact-manifest type, or foreign layers (ImageExport signals "
+               "these with an explicit error / cannot fetch content the source does not host); every other export and import must succeed, and a nil return is always "
+               "judged. Digests that are (also) named as foreign layers are not required at the target. Known findings are neutralised after being counted (blob-typed "
+               "entries pre-seeded, validation switched off, the offending transformation stripped) so that the rest of the case is still judged.",
     assumptions=["source content is spec-conformant and complete", "in-memory transport (no TLS, no sockets)",
-                 "a hard link member follows the member it links to; symlink targets are resolved relative to the link's directory, hard link targets relative to the archive root (tar semantics)"],
+                 "tar semantics: a hard link member follows the member it links to and names it relative to the archive root; a symlink target is relative to the link's directory",
+                 "a registry may reject a manifest whose referenced blobs / manifests are absent (MANIFEST_BLOB_UNKNOWN), as distribution does"],
 )
